@@ -54,7 +54,33 @@ func c11R10(c *Ctx, r *Report) {
 			}
 			k++
 			v := retVal(ret, 0)
+			emptyTok := Guard{Name: "token == \"\"", Truthy: true, Match: func(b ssa.Value) bool {
+				bo, ok := b.(*ssa.BinOp)
+				if !ok || bo.Op != token.EQL {
+					return false
+				}
+				isEmpty := func(x ssa.Value) bool { s, ok := constStrVal(x); return ok && s == "" }
+				isLen := func(x ssa.Value) bool {
+					call, ok := x.(*ssa.Call)
+					return ok && calleeName(&call.Call) == "builtin.len" && call.Call.Args[0] == ssa.Value(tok)
+				}
+				isZero := func(x ssa.Value) bool { n, ok := constInt(x); return ok && n == 0 }
+				return (bo.X == ssa.Value(tok) && isEmpty(bo.Y)) || (bo.Y == ssa.Value(tok) && isEmpty(bo.X)) || (isLen(bo.X) && isZero(bo.Y)) || (isLen(bo.Y) && isZero(bo.X))
+			}}
+			if s, isS := constStrVal(v); isS && s == "\"\"" {
+				// the empty token is printed as two quote characters
+				cons := fmt.Sprintf("database/query.escapeString / return #%d (empty token quoted)", k)
+				p := ReachTargetAvoiding(fn, ret, []Guard{emptyTok}, nil)
+				r.Check(p == nil, rule, cons, "the constant \"\" is returned only for the empty token", "two quote characters are returned for a token that is not empty: its content is lost", c.Pos(ret.Pos()))
+				return
+			}
 			if v == ssa.Value(tok) {
+				// the empty token must not be printed bare: it would not be a token at all
+				notEmpty := emptyTok
+				notEmpty.Name, notEmpty.Truthy = "token != \"\"", false
+				pe := ReachTargetAvoiding(fn, ret, []Guard{notEmpty}, nil)
+				r.Check(pe == nil, rule, fmt.Sprintf("database/query.escapeString / return #%d (the empty token is not printed bare)", k), "the bare form is reachable only for a non-empty token",
+					"an empty token (empty string operand or key) is printed as nothing: the printed query does not parse back, or parses to a different query (the next word is taken as the operand)", c.Pos(ret.Pos()))
 				cons := fmt.Sprintf("database/query.escapeString / return #%d (token printed bare)", k)
 				// only when no character needs quoting
 				var set string
